@@ -2200,6 +2200,7 @@ func (l *Lexer) popState() {
 	s.delayed.symbol = noToken
 	s.recoveryMode = false
 	s.lastToken = token.UNAVAILABLE
+	s.lastEnd = 0
 	s.lastLine = 1
 {{end}}
 
